@@ -253,6 +253,11 @@ theorem esc_cmd (fuel : Nat) (ih : Esc fuel) : ∀ s c, Within (loops s.stack) (
       · exact within_finishSimple _ _ _ trivial
       · exact within_finishSimple _ _ _ h1
   | fundef name body => simp only [execCmd]; exact within_finishSimple _ _ _ trivial
+  | expErr => simp only [execCmd, St.expansionError]; split <;> trivial
+  | assignErr => simp only [execCmd, St.expansionError]; split <;> trivial
+  | redirErr k => simp only [execCmd]; cases k <;> first | trivial | exact within_applyErrexit _ _
+  | specialErr w st => simp only [execCmd]; exact within_finishSimple _ _ _ (by split <;> trivial)
+  | trapExit body => simp only [execCmd]; exact within_finishSimple _ _ _ trivial
   | group body => simp only [execCmd]; exact ih.list s body
   | subshell body =>
     simp only [execCmd]
